@@ -40,7 +40,7 @@ def run(ctx):
         F = ctx.facts(L['fn'])
         n = [x for x in ctx.cfg(L['fn']).returns if x.ast is r['node']]
         fs = F.facts_at(n[0]) if n else frozenset()
-        fixed = any(op == '!=' and 'cctz::FixedOffsetFromName(' in a + b and 'n:0' in (a, b) for (op, a, b) in fs)
+        fixed = any(op == '!=' and 'cctz::FixedOffsetFromName(' in F.resolve_key(a) + F.resolve_key(b) and 'n:0' in (a, b) for (op, a, b) in fs)
         zero = any(op == '==' and 'zero()' in a + b for (op, a, b) in fs)
         if fixed and zero:
             found = True
